@@ -327,6 +327,19 @@ def run_shape(case):
             m2.add(e2)
             path = os.path.join(runner.scratch_dir(), f"c11_{os.getpid()}")
             m2.write(path)
+            text1 = open(path).read()
+            # a second, independent construction in the same process must write the same dictionary
+            # (class-level tables or caches mutated by the first one would show here)
+            e3 = mk(fr, s)
+            chop(e3)
+            m3 = cb.Mesh()
+            m3.add(e3)
+            m3.write(path)
+            import re
+
+            canon = lambda t: re.sub(r"sphere_\d+", "sphere_#", t)  # noqa: E731
+            if canon(open(path).read()) != canon(text1):
+                bad("second-construction-differs", "building and writing the same shape twice in one process gives two different dictionaries")
         except Exception as err:
             bad("documented-chops-insufficient", f"{type(err).__name__}: {str(err)[:200]}")
     return {"violations": violations, "outcome": f"{case['name']}:blocks={len(mesh.blocks)}:vertices={len(mesh.vertices)}"}
